@@ -11,6 +11,8 @@ SPEC = {
         'C31_pool_rejects_at_every_height_partial', 'C31_delay_group_refuted', 'C31_executor_outer_refuted',
         'C31_proxy_inner_rejected_by_executor', 'C31_gate_exact', 'C31_inactive_no_effect', 'C31_rejection_sound',
         'C31_proxy_inner_before_fork_witness', 'C31_height0_hypothesis_needed',
+        'C31_verdict_history_independent', 'C31_verdict_history_independent_nth', 'C31_history_blocked_rejected',
+        'C31_history_witness',
     ],
     'allowed_axioms': [],
     'shard': 30,
@@ -32,7 +34,21 @@ SPEC = {
             'transactions are removed again), EventAddDelayTx reply, and whether a delayed transaction embedded in a block '
             'sent to the pool as EventAddBlock was cached (probed with an empty blacklist: ErrDupTx = cached); "para" '
             '(exported predicates with the coins executor type bound to a para-chain configuration so that the real '
-            'recipient differs from To). non-trivial = some looked-at transaction (member or unwrapped inner) is hit by the '
+            'recipient differs from To); "hist-*" + hand-written "w-hist-*" (histories of ONE process, case CHist: one '
+            'transaction body with a fixed nonce - coins transfer / none / evm-named with ContractAddr, alone or as second '
+            'member of a 2-group - is signed by 2-3 accounts out of 5 funded ones and one unfunded one, so all copies have the '
+            'same Transaction.Hash() and differ in the sender only; the history is a sequence of blacklist loads and of asks '
+            '(signer, height, enforcement point in {exported predicates, EventExecTxList, AddTxsToBlock, EventTx, '
+            'EventAddDelayTx, delayed transaction in a block}); the blacklist is loaded ONLY where the history says so (the '
+            '"without blacklist" baselines of EventExecTxList / EventTx are taken before the first load of the history; the '
+            'probe after a delayed-transaction-in-a-block step is recorded as a reload); "hist-pair": load [listed signer '
+            '(+ unrelated account)], clean signer at point p1, listed signer at point p2 for all 25 (p1, p2), sometimes '
+            'followed by two more asks; "hist-pair-rev": listed signer first; "hist-rand": 3-7 steps, random signers, points, '
+            'heights and reloads of other lists; "hist-reload": one transaction asked under lists that do / do not name its '
+            'sender or recipient, 4 reloads; check_case folds the model state (the set parsed by the last load) over the '
+            'history and applies model and spec oracle to every step, the known-finding code is that of the first failing '
+            'step). non-trivial = a history asks about a signer that is on the loaded list or observes a rejection; otherwise '
+            'non-trivial = some looked-at transaction (member or unwrapped inner) is hit by the '
             'blacklist / some probe is blocked / the configuration panics / the real exec name differs from the execer; '
             'distinct = distinct Gallina case terms',
     'trusted_base': [
@@ -56,6 +72,10 @@ SPEC = {
         'type is registered (Reply{IsOk:false}, i.e. nonce 0); the test node does not serve the rpc topic',
         'the embedded-delayed-transaction observation uses a hand-made block (height and time of the current tip) sent to '
         'the pool as EventAddBlock, as the blockchain module does',
+        'histories: the delay cache refuses a hash it already holds (ErrDupTx) after the blacklist check; whether the body\'s '
+        'hash already sits in the delay cache is tracked by the harness and given to the model as the baseline reply of the '
+        'delay entry (PtDelay base); the process model has one state component, the parsed set (package variable '
+        'blockedAccountSet), replaced by every successful load',
         'para stream: ExecutorType.SetConfig on the registered coins type (exported) switches GetRealToAddr to para behaviour in-process',
     ],
     'assumptions': [
@@ -73,7 +93,11 @@ SPEC = {
                       'executor looks at the inner transaction only: C31-F3) and for delayed groups (head only: C31-F2)',
         'level_note': 'model = Gallina transcription of account_blacklist.go (hex/base58 parsing down to characters, set, core '
                       'check, gate), GetRealExecName, and the wiring of the five enforcement points; SHA-256, protobuf decoding, '
-                      'address derivation and all non-blacklist validity checks are inputs (facts / baseline observables)',
+                      'address derivation and all non-blacklist validity checks are inputs (facts / baseline observables); the '
+                      'process model keeps only the parsed set between calls: every answer of a history of loads and checks is the '
+                      'pure function of (transaction facts, last loaded list, fork configuration, height) '
+                      '(C31_verdict_history_independent), checked against the running code by history cases in which one '
+                      'transaction body is signed by several accounts',
         'technique': 'Coq proof (case analysis and induction over lists/strings; refutations by computed witnesses) + in-kernel '
                      'correspondence check against a running test node',
     },
